@@ -866,11 +866,17 @@ func (c *Ctx) mapWritesIn(fi *load.FuncInfo, n ast.Node, field *types.Var) []map
 // loopDeletes: a range loop after `after` in fi deletes from the given map field (e.g. clearing invitations for every session).
 func (c *Ctx) loopDeletes(fi *load.FuncInfo, after ast.Node, field *types.Var) bool {
 	ok := false
+	g := c.Graph(fi)
+	av := g.VertexOf(after)
 	ast.Inspect(fi.Body(), func(n ast.Node) bool {
 		if rs, isR := n.(*ast.RangeStmt); isR && rs.Pos() > after.Pos() {
 			for _, w := range c.mapWritesIn(fi, rs.Body, field) {
 				if w.delete {
-					ok = true
+					// the sweep is reached on every path from the removal to the function's end (no early return in between)
+					hv := g.VertexOf(rs.X)
+					if av < 0 || hv < 0 || g.PostDominatedBy(av, g.Exit, func(x *cfgx.Vertex) bool { return x.ID == hv }) {
+						ok = true
+					}
 				}
 			}
 		}
